@@ -19,10 +19,11 @@ const (
 	ShapeTiny
 	ShapeHuge
 	ShapeSpiky
+	ShapeHalts // a random walk with halted sessions: open = high = low = close (the previous close), zero volume
 	NumShapes
 )
 
-var shapeNames = []string{"walk", "flat", "up", "down", "saw", "ties", "tiny", "huge", "spiky"}
+var shapeNames = []string{"walk", "flat", "up", "down", "saw", "ties", "tiny", "huge", "spiky", "halts"}
 
 // genSnapshots returns n snapshots of the given shape with low <= open, close <= high, positive
 // prices, non-negative volume and consecutive whole-day UTC dates starting at start.
@@ -39,7 +40,7 @@ func genSnapshots(n int, shape int, seed int64, start time.Time) []*asset.Snapsh
 	}
 	for i := 0; i < n; i++ {
 		switch shape {
-		case ShapeWalk, ShapeTiny, ShapeHuge:
+		case ShapeWalk, ShapeTiny, ShapeHuge, ShapeHalts:
 			price *= 1 + 0.04*(rng.Float64()-0.5)
 		case ShapeFlat:
 		case ShapeUp:
@@ -78,6 +79,10 @@ func genSnapshots(n int, shape int, seed int64, start time.Time) []*asset.Snapsh
 			}
 		} else if shape == ShapeTies {
 			vol = float64(100 * (1 + i%3))
+		}
+		if shape == ShapeHalts && i > 0 && rng.Intn(6) == 0 {
+			price = out[i-1].Close / scale
+			c, o, h, l, vol = price, price, price, price, 0
 		}
 		out[i] = &asset.Snapshot{
 			Date:   start.AddDate(0, 0, i),
